@@ -56,6 +56,9 @@ pub struct Plan {
     /// swarm knob: capacity of the driver's local-command channel (0 = the shipped 10 000)
     #[serde(default)]
     pub chan: usize,
+    /// boundary knob: the values of this key are 1..15 bytes below the maximum record size (5 MiB)
+    #[serde(default)]
+    pub huge_key: Option<usize>,
     pub steps: Vec<Step>,
 }
 
@@ -243,6 +246,7 @@ impl Sim for StoreSim {
             probe_prefixes,
             filler,
             chan: if kind == "C01" && rng.chance(1, 3) { rng.urange(1, 4) } else { 0 },
+            huge_key: if kind == "C02" && rng.chance(1, 40) { Some(rng.usize_below(n_keys)) } else { None },
             steps,
         }
     }
